@@ -71,6 +71,11 @@ Theorem C08_page_is_spec : forall hlt s batch key, Valid s -> roots_unique s ->
   exists tip, Inv s tip /\ page hlt s batch key = spec_page s tip batch key.
 Proof. exact valid_page_is_spec. Qed.
 
+(* huge page sizes (anything above the number of stored rows, up to 2^63-1): the page evaluated by the handler model
+   with the capped count IS the page for the requested count - a huge batchSize behaves as "everything that is left" *)
+Theorem C08_page_http_cap : forall hlt s z key, 0 <= z -> page hlt s (cap s z) key = page hlt s (Z.to_nat z) key.
+Proof. exact page_http_cap. Qed.
+
 (* batchSize = 0: empty page, empty key *)
 Theorem C08_batch_zero : forall hlt s tip t key i, Inv s tip -> by_hash s tip = Some t -> roots_unique s ->
   key_pos (asc_chain s tip) key i -> page hlt s 0 key = POk [] None (height t).
@@ -158,6 +163,7 @@ Print Assumptions C08_no_stale_no_orphan.
 Print Assumptions C08_key_unknown.
 Print Assumptions C08_key_not_longest.
 Print Assumptions C08_page_is_spec.
+Print Assumptions C08_page_http_cap.
 Print Assumptions C08_batch_zero.
 Print Assumptions C08_walk_with_appends.
 Print Assumptions C08_extend_tip.
